@@ -39,6 +39,11 @@ impl ResponseSink {
                         e
                     ))
                 })?;
+                // verification hook H1: the real guard moves into a wrapper that records
+                // LockAcquired now, every write/flush that reaches the file, and Released when
+                // (and only when) the real MutexGuard is dropped
+                #[cfg(compass_verif)]
+                let mut file_attained = verif_trace::TracedGuard::new(file_attained);
                 let it_ref = Arc::new(iterations);
                 let mut it_attained = it_ref.lock().map_err(|e| {
                     CompassAppError::ReadOnlyPoisonError(format!(
@@ -48,6 +53,8 @@ impl ResponseSink {
                 })?;
 
                 let output_row = format.format_response(response)?;
+                #[cfg(compass_verif)]
+                verif_trace::record(verif_trace::SinkEvent::RowFormatted(output_row.len()));
                 writeln!(file_attained, "{}", output_row).map_err(|e| {
                     CompassAppError::InternalError(format!(
                         "failure writing to {}: {}",
@@ -120,3 +127,81 @@ impl ResponseSink {
         }
     }
 }
+
+/// verification hook H1 (add-only, compiled only with `--cfg compass_verif`): a global event
+/// trace of `ResponseSink::write_response`, read by the C19 / C06 correspondence checks.
+#[cfg(compass_verif)]
+pub mod verif_trace {
+    use std::fs::File;
+    use std::io::Write;
+    use std::sync::atomic::{AtomicU64, Ordering};
+    use std::sync::{Mutex, MutexGuard};
+
+    #[derive(Clone, Copy, Debug, PartialEq, Eq)]
+    pub enum SinkEvent {
+        /// the file mutex has been acquired by this thread
+        LockAcquired,
+        /// `format_response` returned a row of this many bytes
+        RowFormatted(usize),
+        /// one `write` call on the file returned after accepting this many bytes
+        Written(usize),
+        /// `flush` was called on the file and returned
+        Flushed,
+        /// recorded immediately before the real `MutexGuard<File>` is dropped
+        Released,
+    }
+
+    static TRACE: Mutex<Vec<(u64, SinkEvent)>> = Mutex::new(Vec::new());
+    static NEXT_THREAD: AtomicU64 = AtomicU64::new(0);
+    thread_local! {
+        static THREAD: u64 = NEXT_THREAD.fetch_add(1, Ordering::SeqCst);
+    }
+
+    /// small stable id of the calling OS thread (the id used in the trace)
+    pub fn sink_thread_id() -> u64 {
+        THREAD.with(|t| *t)
+    }
+
+    pub fn record(e: SinkEvent) {
+        let t = sink_thread_id();
+        let mut g = TRACE.lock().unwrap_or_else(|p| p.into_inner());
+        g.push((t, e));
+    }
+
+    /// returns the events recorded since the last call, in recording order, and clears them
+    pub fn take_sink_trace() -> Vec<(u64, SinkEvent)> {
+        let mut g = TRACE.lock().unwrap_or_else(|p| p.into_inner());
+        std::mem::take(&mut *g)
+    }
+
+    /// owns the real guard: `Released` is recorded in `drop` and the field (the real guard) is
+    /// dropped right after it, so no other thread can record `LockAcquired` in between
+    pub struct TracedGuard<'a> {
+        guard: MutexGuard<'a, File>,
+    }
+    impl<'a> TracedGuard<'a> {
+        pub fn new(guard: MutexGuard<'a, File>) -> TracedGuard<'a> {
+            record(SinkEvent::LockAcquired);
+            TracedGuard { guard }
+        }
+    }
+    impl Write for TracedGuard<'_> {
+        fn write(&mut self, buf: &[u8]) -> std::io::Result<usize> {
+            let n = self.guard.write(buf)?;
+            record(SinkEvent::Written(n));
+            Ok(n)
+        }
+        fn flush(&mut self) -> std::io::Result<()> {
+            self.guard.flush()?;
+            record(SinkEvent::Flushed);
+            Ok(())
+        }
+    }
+    impl Drop for TracedGuard<'_> {
+        fn drop(&mut self) {
+            record(SinkEvent::Released);
+        }
+    }
+}
+#[cfg(compass_verif)]
+pub use verif_trace::{sink_thread_id, take_sink_trace, SinkEvent};
